@@ -88,6 +88,20 @@ def names_job(job):
             rc, so, se = ws.push(w, args)
             return probs + p_cmd.dry_compare(pre, rc, se)
         outside_before = {p: v_ for p, v_ in ws.snapshot(sentinel, skip=(), meta=True).items() if not p.startswith('l1/l2/ws/') and p != 'l1/l2/ws/'}
+        flavour = job[7] if len(job) > 7 else None
+        if flavour == 'after-good':
+            # the unsafe name is not in the first patch: the patch before it applies, and still nothing may be left behind
+            ws.write(w, 'patches/p0.patch', b'--- a/keep\n+++ b/keep\n@@ -1 +1 @@\n-keep\n+kept\n')
+            ws.write(w, 'series', b'p0.patch\np1.patch -p%d\np2.patch\n' % case['strip'])
+        elif flavour == 'preload':
+            # an earlier patch of the push has already loaded the file the (safe) old name lands on
+            if not v['old'] or '..' in v['old'] or v['old'][0] == '/' or not v['refused']:
+                return []
+            lp = '/'.join(sp(c) for c in v['old'])
+            if not os.path.isfile(os.path.join(w, lp)):
+                ws.write(w, lp, scen.content([0]))
+            ws.write(w, 'patches/p0.patch', os.fsencode('diff --git a/%s b/%s\nold mode 100644\nnew mode 100755\n' % (lp, lp)))
+            ws.write(w, 'series', b'p0.patch\np1.patch -p%d\np2.patch\n' % case['strip'])
         inside_before = ws.snapshot(w)
         probs = []
         if traced:
@@ -142,6 +156,9 @@ def check(prop, tier):
         # creation- and deletion-shaped hunks under the same names; dry runs (a refused name is refused there too)
         jobs += [(c, 1 + i % 2, False, False, False, 'CD'[i % 2], False) for i, c in enumerate(cases) if not c['viaGit'] and (tier == 'thorough' or i % 2 == 0)]
         jobs += [(c, 1 + i % 2, False, False, False, 'MCD'[i % 3], True) for i, c in enumerate(cases) if tier == 'thorough' or i % 3 == 1]
+        # the unsafe name comes after a patch that applies / after a patch that has loaded the old name's file
+        jobs += [(c, 1 + i % 2, False, False, False, 'M', False, ('after-good', 'preload')[(i // 2) % 2]) for i, c in enumerate(cases) if c['verdict']['refused'] and (tier == 'thorough' or i % 2 == 0)]
+        jobs += [(c, 1 + i % 2, False, False, False, 'M', False, ('preload', 'after-good')[(i // 2) % 2]) for i, c in enumerate(cases) if c['verdict']['refused'] and tier == 'thorough']
         with Pool(12) as pool:
             outs = pool.map(names_job, jobs, chunksize=8)
         for job_, probs in zip(jobs, outs):
